@@ -16,123 +16,127 @@ def norm(s):
     return "".join(s.split())
 
 
+def _no_stdin(*a, **k):
+    from ..pe import PRaise  # noqa: PLC0415
+    raise PRaise("EOFError", ("no stdin in the abstract run",))
+
+
 def check(chk, repo, tier):
     chk.trusted_base += ["CPython ast", "vystatic.pe interpreter subset"]
     helpers = repo.mod("helpers")
     HF = helpers.rel
     gi = helpers.function("get_input")
 
-    # ---- (R) every read in get_input: S[0][S[1] % len(S[0])] then S[1] += 1 ----
-    reads = 0
-    for n in ast.walk(gi):
-        if not (isinstance(n, ast.Assign) and isinstance(
-                n.value, ast.Subscript)):
-            continue
-        txt = norm(ast.unparse(n.value))
-        if "ctx.inputs" not in txt:
-            continue
-        # scope expression S = ctx.inputs[k]
-        scope = None
-        for k in ("ctx.inputs[0]", "ctx.inputs[-1]"):
-            if txt == norm(f"{k}[0][{k}[1] % len({k}[0])]"):
-                scope = k
-        reads += 1
-        cons = f"get_input:read {ast.unparse(n.value)[:40]}"
-        chk.ob("C11.cyclic-read-shape", cons, scope is not None,
-               f"`{ast.unparse(n.value)}` is not of the form "
-               "S[0][S[1] % len(S[0])] for one scope S: reads would not "
-               "cycle over that scope's inputs", HF, n.lineno,
-               sample={"read": ast.unparse(n.value)})
-        if scope is None:
-            continue
-        # followed in the same block by exactly one `S[1] += 1`, then return
-        par = getattr(n, "_parent", None)
-        body = None
-        for f in ("body", "orelse"):
-            seq = getattr(par, f, None)
-            if isinstance(seq, list) and n in seq:
-                body = seq
-        incs = []
-        ret_var = None
-        if body is not None:
-            i = body.index(n)
-            for st in body[i + 1:]:
-                if isinstance(st, ast.AugAssign) and norm(ast.unparse(
-                        st.target)) == norm(f"{scope}[1]"):
-                    incs.append(st)
-                if isinstance(st, ast.Return):
-                    ret_var = ast.unparse(st.value) if st.value else None
-                    break
-        ok = len(incs) == 1 and isinstance(incs[0].op, ast.Add) \
-            and isinstance(incs[0].value, ast.Constant) \
-            and incs[0].value.value == 1 \
-            and ret_var == ast.unparse(n.targets[0])
-        chk.ob("C11.cursor-advances-once", f"get_input:{scope}[1] += 1", ok,
-               f"after reading from {scope} the cursor of that same scope "
-               "must advance by exactly one before the value is returned",
-               HF, n.lineno, sample={"scope": scope})
-        # the read sits under `if S[0]:` (non-empty guard)
-        guard_ok = isinstance(par, ast.If) and norm(ast.unparse(
-            par.test)) == norm(f"{scope}[0]") and n in par.body
-        chk.ob("C11.empty-scope-guard", f"get_input:if {scope}[0]", guard_ok,
-               "the read is not guarded by the scope being non-empty "
-               "(modulo by zero / wrong fallback)", HF, n.lineno)
-    chk.floor("cyclic reads in get_input", reads, 2)
+    # ---- get_input as a transition system over small abstract states ------------
+    # The current source of get_input is interpreted on every state with up to
+    # three scopes, up to three inputs per scope, every cursor position up to
+    # 2*len+1 and both values of the explicit-read flag; one call must make
+    # exactly the transition of the specification.  The k-th-read law follows
+    # by induction on the number of reads.
+    from ..pe import Interp, PRaise  # noqa: PLC0415
+    gen0 = Gen(repo)
+    it = gen0.it
+    it.builtins["input"] = _no_stdin
+    Context = it.module("vyxal.context").get("Context")
+    get_input = it.module("vyxal.helpers").get("get_input")
+    pop = it.module("vyxal.helpers").get("pop")
 
-    # scope choice: inputs[0] iff use_top_input
-    top = gi.body[-1] if isinstance(gi.body[-1], ast.If) else None
-    for st in gi.body:
-        if isinstance(st, ast.If) and "use_top_input" in ast.unparse(st.test):
-            top = st
-    if top is None:
-        raise AnalysisError("anchor vanished: `if ctx.use_top_input` in "
-                            "get_input")
-    t_scopes = {k for k in ("ctx.inputs[0]", "ctx.inputs[-1]")
-                for b in top.body if norm(k) in norm(ast.unparse(b))}
-    f_scopes = {k for k in ("ctx.inputs[0]", "ctx.inputs[-1]")
-                for b in top.orelse if norm(k + "[") in norm(ast.unparse(b))}
-    positive = norm(ast.unparse(top.test)) == "ctx.use_top_input"
-    ok = positive and t_scopes == {"ctx.inputs[0]"} and \
-        f_scopes == {"ctx.inputs[-1]"}
-    chk.ob("C11.scope-choice", "get_input:use_top_input -> inputs[0]", ok,
-           "explicit reads (use_top_input) must use the program's scope "
-           "ctx.inputs[0], implicit reads the innermost scope ctx.inputs[-1]; "
-           f"found true-arm {sorted(t_scopes)}, false-arm {sorted(f_scopes)}",
-           HF, top.lineno, sample={"true": sorted(t_scopes),
-                                   "false": sorted(f_scopes)})
-    # empty innermost scope: top-level -> fall back to explicit read; nested -> 0
-    fb = None
-    for n in ast.walk(ast.Module(body=top.orelse, type_ignores=[])):
-        if isinstance(n, ast.If) and norm(ast.unparse(n.test)) == \
-                "len(ctx.inputs)==1":
-            fb = n
-    ok = False
-    if fb is not None:
-        sets_t = [s for s in fb.body if isinstance(s, ast.Assign) and norm(
-            ast.unparse(s)) == "ctx.use_top_input=True"]
-        sets_f = [s for s in fb.body if isinstance(s, ast.Assign) and norm(
-            ast.unparse(s)) == "ctx.use_top_input=False"]
-        calls = [s for s in fb.body if isinstance(s, ast.Assign)
-                 and isinstance(s.value, ast.Call)
-                 and dotted(s.value.func) == "get_input"]
-        ret0 = any(isinstance(s, ast.Return) and isinstance(
-            s.value, ast.Constant) and s.value.value == 0 for s in fb.orelse)
-        ok = len(sets_t) == 1 and len(sets_f) == 1 and len(calls) == 1 \
-            and sets_t[0].lineno < calls[0].lineno < sets_f[0].lineno and ret0
-    chk.ob("C11.empty-scope-fallback", "get_input:empty innermost scope", ok,
-           "with an empty innermost scope: at top level one explicit read "
-           "with use_top_input set and reset around it; inside a "
-           "lambda/function the value 0", HF, gi.lineno,
-           sample="len(ctx.inputs) == 1 -> explicit read; else 0")
-    # no inputs at all -> 0
-    zero = any(isinstance(n, ast.ExceptHandler) and any(
-        isinstance(s, ast.Assign) and isinstance(s.value, ast.Constant)
-        and s.value.value == 0 for s in n.body) for n in ast.walk(gi)) \
-        or any(isinstance(n, ast.Return) and isinstance(n.value, ast.Constant)
-               and n.value.value == 0 for n in ast.walk(top.body[0]))
-    chk.ob("C11.no-input-yields-zero", "get_input:no inputs", zero,
-           "with no inputs a read must yield 0 (stdin fallback wrapped in "
-           "try/except -> 0)", HF, gi.lineno)
+    def fresh(scopes, flag):
+        ctx = it.instantiate(Context, [], {})
+        ctx.d["inputs"] = [[list(lst), cur] for lst, cur in scopes]
+        ctx.d["use_top_input"] = flag
+        return ctx
+
+    n_states = 0
+    bad = {}
+    import itertools as _it  # noqa: PLC0415
+    for depth in (1, 2, 3):
+        for lens in _it.product(range(0, 4), repeat=depth):
+            if depth == 3 and max(lens) > 2:
+                continue
+            curs_ranges = [range(0, 2 * ln + 2) if ln else range(0, 2)
+                           for ln in lens]
+            for curs in _it.product(*curs_ranges):
+                for flag in (False, True):
+                    scopes = [([f"in{d}_{i}" for i in range(ln)], c)
+                              for d, (ln, c) in enumerate(zip(lens, curs))]
+                    ctx = fresh(scopes, flag)
+                    n_states += 1
+                    it.steps = 0
+                    try:
+                        got = get_input(ctx)
+                    except (PRaise, Exception) as exc:  # noqa: BLE001
+                        bad.setdefault("raises", (scopes, flag, repr(exc)))
+                        continue
+                    t = 0 if flag else depth - 1
+                    lst, cur = scopes[t]
+                    after = [tuple(x) if False else (list(x[0]), x[1])
+                             for x in ctx.d["inputs"]]
+                    want_after = [(list(l), c) for l, c in scopes]
+                    if lst:
+                        want = lst[cur % len(lst)]
+                        want_after[t] = (list(lst), cur + 1)
+                    else:
+                        want = 0
+                    if got != want:
+                        bad.setdefault("value", (scopes, flag, got, want))
+                    elif after != want_after:
+                        bad.setdefault("cursor", (scopes, flag, after,
+                                                  want_after))
+                    elif ctx.d["use_top_input"] != flag:
+                        bad.setdefault("flag", (scopes, flag))
+    texts = {
+        "raises": "get_input raises",
+        "value": "a read returns the wrong value (expected input number "
+                 "cursor mod n of the scope selected by the explicit-read "
+                 "flag, or 0 when that scope is empty)",
+        "cursor": "a read does not advance exactly the cursor of the scope "
+                  "it read from (or touches another scope)",
+        "flag": "the explicit-read flag is left changed after the read",
+    }
+    for key, text in texts.items():
+        w = bad.get(key)
+        chk.ob("C11.read-transition-" + key, "helpers.get_input", w is None,
+               f"{text}: state scopes={w[0] if w else ''} "
+               f"use_top_input={w[1] if w else ''} -> {w[2:] if w else ''}",
+               HF, gi.lineno, witness=repr(w) if w else None,
+               sample={"abstract states": n_states} if key == "value"
+               else None)
+    chk.unit("get_input abstract states", n_states)
+
+    # ---- pop on a short stack reads the missing items, in order ----------------------
+    n_p = 0
+    badp = None
+    for m in range(0, 3):
+        for count in range(1, 4):
+            for ln in range(0, 4):
+                for cur in range(0, ln + 1):
+                    inputs = [f"in{i}" for i in range(ln)]
+                    ctx = fresh([(inputs, cur)], False)
+                    stack = [f"s{i}" for i in range(m)]
+                    it.steps = 0
+                    n_p += 1
+                    try:
+                        got = pop(stack, count, ctx)
+                    except (PRaise, Exception) as exc:  # noqa: BLE001
+                        badp = badp or (m, count, inputs, cur, repr(exc))
+                        continue
+                    want = [f"s{i}" for i in range(m)][::-1][:count]
+                    k = count - len(want)
+                    for j in range(k):
+                        want.append(inputs[(cur + j) % ln] if ln else 0)
+                    want_v = want[0] if count == 1 else want
+                    cur_after = ctx.d["inputs"][0][1]
+                    if got != want_v or (ln and cur_after != cur + k) or \
+                            len(stack) != max(0, m - count):
+                        badp = badp or (m, count, inputs, cur, got, want_v,
+                                        cur_after)
+    chk.ob("C11.pop-falls-back-to-input", "helpers.pop", badp is None,
+           "popping more items than the stack holds must return the stack "
+           "items (top first) followed by the next inputs in cyclic order, "
+           f"one read per missing item: {badp}", HF,
+           witness=repr(badp) if badp else None,
+           sample={"pop configurations": n_p})
 
     # ---- (W) cursors are written only in get_input -----------------------------------
     n_w = 0
@@ -157,33 +161,7 @@ def check(chk, repo, tier):
                            fname == "get_input",
                            "an input cursor is written outside get_input",
                            m.rel, n.lineno)
-    chk.floor("cursor writes", n_w, 2)
-
-    # ---- (P) pop's empty arm: one get_input per missing item ------------------------------
-    pf = helpers.function("pop")
-    calls = [n for n in ast.walk(pf) if isinstance(n, ast.Call)
-             and dotted(n.func) == "get_input"]
-    ok = len(calls) == 1
-    if ok:
-        c = calls[0]
-        loop = None
-        cur = getattr(c, "_parent", None)
-        in_else = False
-        child = c
-        while cur is not None and cur is not pf:
-            if isinstance(cur, ast.If) and any(
-                    child is s or child in ast.walk(s) for s in cur.orelse):
-                in_else = norm(ast.unparse(cur.test)) == pf.args.args[0].arg
-            if isinstance(cur, ast.For):
-                loop = cur
-            child = cur
-            cur = getattr(cur, "_parent", None)
-        ok = loop is not None and norm(ast.unparse(loop.iter)) == \
-            f"range({pf.args.args[1].arg})" and in_else
-    chk.ob("C11.pop-falls-back-to-input", "helpers.pop", ok,
-           "pop must call get_input(ctx) exactly once for each missing item "
-           "(inside `for _ in range(count)`, in the arm where the stack is "
-           "empty)", HF, pf.lineno, sample="else: temp = get_input(ctx)")
+    chk.unit("direct cursor writes found", n_w)
 
     # ---- (T) use_top_input discipline ------------------------------------------------------
     gen = Gen(repo)
@@ -301,13 +279,15 @@ def check(chk, repo, tier):
                    sample={"template": label})
 
     chk.explanation = (
-        "Clause-level: get_input's reads have the cyclic shape "
-        "S[0][S[1] % len(S[0])] on one scope S, each followed by exactly one "
-        "S[1] += 1 before the return and guarded by a non-empty S[0]; the "
-        "scope is inputs[0] iff use_top_input, inputs[-1] otherwise, with the "
-        "empty-scope fallbacks of the specification; cursors and the flag "
-        "are written nowhere else; pop calls get_input once per missing "
-        "item; the input element sets/reads/resets the flag; lambda and "
+        "get_input is treated as a transition system: its current source is "
+        "interpreted on every abstract state (<= 3 scopes, <= 3 inputs each, "
+        "every cursor position, both flag values) and each read must return "
+        "input number cursor mod n of the scope chosen by the explicit-read "
+        "flag (0 for an empty scope), advance exactly that cursor and leave "
+        "the flag as it was - the k-th-read law follows by induction; pop on "
+        "a short stack returns the stack items then the next inputs in "
+        "order; cursors and the flag are written nowhere else (field-write "
+        "inventory); the input element sets/reads/resets the flag; lambda and "
         "function templates push [reversed copy of the arguments, 0]. "
         "Balanced push/pop of scopes is C12. Does not decide the stdin "
         "fallback or value sequences as such.")
